@@ -204,12 +204,16 @@ pub struct Sub {
     pub text: String,
     pub is_pattern: bool,
     pub unique: bool,
+    /// the receiving end is gone (no unsubscribe yet): nothing can be observed any more; the server
+    /// may or may not have noticed
+    pub zombie: bool,
 }
 
 #[derive(Clone, Debug, PartialEq)]
 pub struct LsSub {
     pub id: SubKey,
     pub parent: Path,
+    pub zombie: bool,
 }
 
 #[derive(Clone, Debug, PartialEq, Default)]
@@ -493,7 +497,7 @@ impl RefCore {
     fn notify(&self, ctx: &mut Ctx, batch: &mut BTreeMap<SubKey, Vec<Ev>>, path: &[String], value: &Value, changed: bool, deleted: bool) {
         let key = path.join("/");
         for s in &self.subs {
-            if !matches(&s.pattern, path, false) {
+            if s.zombie || !matches(&s.pattern, path, false) {
                 continue;
             }
             if !changed && s.unique {
@@ -517,6 +521,9 @@ impl RefCore {
     /// After the data changed: send the new child list to every ls subscriber whose list changed.
     fn notify_ls(&mut self, ctx: &mut Ctx, before: &RefCore) {
         for s in &self.ls_subs {
+            if s.zombie {
+                continue;
+            }
             let old = before.ls_list(&s.parent);
             let new = self.ls_list(&s.parent);
             if old != new {
@@ -753,13 +760,13 @@ impl RefCore {
         self.do_set(&mut first, INTERNAL, &format!("{SYS}/clients"), Entry::Plain(json!(n)), true).ok();
 
         // subscriptions of the client end here
-        let own: Vec<SubKey> = self.subs.iter().filter(|s| s.id.0 == c).map(|s| s.id).collect();
+        let own: Vec<SubKey> = self.subs.iter().filter(|s| s.id.0 == c && !s.zombie).map(|s| s.id).collect();
         for id in &own {
             ctx.obs.closed.insert(*id);
             ctx.obs.dont_care.insert(*id);
         }
         self.subs.retain(|s| s.id.0 != c);
-        let own_ls: Vec<SubKey> = self.ls_subs.iter().filter(|s| s.id.0 == c).map(|s| s.id).collect();
+        let own_ls: Vec<SubKey> = self.ls_subs.iter().filter(|s| s.id.0 == c && !s.zombie).map(|s| s.id).collect();
         for id in &own_ls {
             ctx.obs.ls_closed.insert(*id);
             ctx.obs.dont_care.insert(*id);
@@ -858,7 +865,7 @@ impl RefCore {
                             }
                         }
                     }
-                    next.subs.push(Sub { id: (*c, *tid), pattern, text: k.clone(), is_pattern: false, unique: *unique });
+                    next.subs.push(Sub { id: (*c, *tid), pattern, text: k.clone(), is_pattern: false, unique: *unique, zombie: false });
                     Ok(Expect::unit())
                 }
             }
@@ -877,14 +884,20 @@ impl RefCore {
                             ctx.obs.events.entry((*c, *tid)).or_default().push(snap);
                         }
                     }
-                    next.subs.push(Sub { id: (*c, *tid), pattern, text: p.clone(), is_pattern: true, unique: *unique });
+                    next.subs.push(Sub { id: (*c, *tid), pattern, text: p.clone(), is_pattern: true, unique: *unique, zombie: false });
                     Ok(Expect::unit())
                 }
             }
             Op::Unsubscribe(c, tid) => {
                 if let Some(pos) = next.subs.iter().position(|s| s.id == (*c, *tid)) {
-                    next.subs.remove(pos);
-                    ctx.obs.closed.insert((*c, *tid));
+                    let gone = next.subs.remove(pos);
+                    if gone.zombie {
+                        // the server may have dropped the subscriber already when a send failed: then
+                        // the bookkeeping entry goes, but the answer is "not subscribed"
+                        ctx.obs.alt_expect = Some(Expect::err(E_NOT_SUBSCRIBED));
+                    } else {
+                        ctx.obs.closed.insert((*c, *tid));
+                    }
                     Ok(Expect::unit())
                 } else {
                     Err(E_NOT_SUBSCRIBED)
@@ -895,18 +908,35 @@ impl RefCore {
                 let list = next.ls_list(&path);
                 ctx.obs.ls_sent.insert((*c, *tid), list.clone());
                 next.ls_last.insert((*c, *tid), list);
-                next.ls_subs.push(LsSub { id: (*c, *tid), parent: path });
+                next.ls_subs.push(LsSub { id: (*c, *tid), parent: path, zombie: false });
                 Ok(Expect::unit())
             }
             Op::UnsubscribeLs(c, tid) => {
                 if let Some(pos) = next.ls_subs.iter().position(|s| s.id == (*c, *tid)) {
-                    next.ls_subs.remove(pos);
+                    let gone = next.ls_subs.remove(pos);
                     next.ls_last.remove(&(*c, *tid));
-                    ctx.obs.ls_closed.insert((*c, *tid));
+                    if gone.zombie {
+                        ctx.obs.alt_expect = Some(Expect::err(E_NOT_SUBSCRIBED));
+                    } else {
+                        ctx.obs.ls_closed.insert((*c, *tid));
+                    }
                     Ok(Expect::unit())
                 } else {
                     Err(E_NOT_SUBSCRIBED)
                 }
+            }
+            Op::DropReceiver(c, tid) => {
+                if let Some(sub) = next.subs.iter_mut().find(|s| s.id == (*c, *tid)) {
+                    sub.zombie = true;
+                }
+                Ok(Expect::unit())
+            }
+            Op::DropLsReceiver(c, tid) => {
+                if let Some(sub) = next.ls_subs.iter_mut().find(|s| s.id == (*c, *tid)) {
+                    sub.zombie = true;
+                    next.ls_last.remove(&(*c, *tid));
+                }
+                Ok(Expect::unit())
             }
             Op::Lock(c, k) => parse_key(k).and_then(|path| match next.locks.get(&path) {
                 None => {
